@@ -570,6 +570,9 @@ for r, what in (('R51', 'mixture_model_utils / cacgmm / cACG'), ('R52', 'cwmm / 
 #      nested functions and closures selected once, np.divide(..., out=), post-processing in loops over several results, early returns)
 for r, what in (('R61', 'mixture_model_utils / cacgmm / cACG'), ('R62', 'cwmm / cbmm / Watson / Bingham / distribution.utils'), ('R63', 'gmm / gaussian / vMF / gcacgmm / vmfcacgmm'),
                 ('R64', 'beamformer / beamformer_wrapper / math.solve'), ('R65', 'permutation_alignment / initializers'), ('R66', 'mask_module / sxr_module / si_sdr / utils')):
-    C.append(dict(id=f'N12-{r}-dataflow', kind='neutral', properties=ALLP, note=f'independent data-flow restructuring of {what}', patch=f'neutral_patches/{r}.patch', edits=[]))
+    # checks that end INCONCLUSIVE (exit 2, no VIOLATION line) on these patches: the model does not follow a construct the patch introduces, and says so (DESIGN 10.5, sixth campaign)
+    undecided = {'R64': ['C13'], 'R65': ['C01', 'C09', 'C14', 'C15', 'C16'], 'R66': ['C06']}.get(r, [])
+    C.append(dict(id=f'N12-{r}-dataflow', kind='neutral', properties=ALLP, note=f'independent data-flow restructuring of {what}', patch=f'neutral_patches/{r}.patch', edits=[],
+                  inconclusive_ok=undecided))
 out.write_text(json.dumps(C, indent=1))
 print(len(C), 'variants ->', out)
